@@ -145,14 +145,21 @@ def run(ctx):
     roots_of = {role: pcb0.ptr(arr)[0] for arr, role in zip(arrs, ('data', 'parity'))}
     for arr, role in zip(arrs, ('data', 'parity')):
         A, _ = derived_pointers(f, [arr])
-        if not any(s.op == 'store' and s.ops[1] in A and f.defs.get(strip_ptr_casts(f, s.ops[0])) is not None
-                   and f.defs[strip_ptr_casts(f, s.ops[0])].op == 'call' and f.defs[strip_ptr_casts(f, s.ops[0])].callee in O.returns_owned for s in f.insts()):
+        def fresh16(v, depth=0):
+            d_ = f.defs.get(strip_ptr_casts(f, v))
+            if d_ is None or depth > 4:
+                return False
+            if d_.op == 'call':
+                return d_.callee in O.returns_owned
+            if d_.op == 'phi':
+                return all(fresh16(x_, depth + 1) for x_, _ in d_.incoming)
+            return False
+        if not any(s.op == 'store' and s.ops[1] in A and fresh16(s.ops[0]) for s in f.insts()):
             r.undecided(f'prepare_fragments_for_decode: fresh {role}[] buffers', loc=f.mod.src, msg=f'no store of a fresh allocation into {role}[] was recognised (anchor lost)')
         for s in f.insts():
             if s.op != 'store' or s.ops[1] not in A:
                 continue
-            vd = f.defs.get(strip_ptr_casts(f, s.ops[0]))
-            if vd is None or vd.op != 'call' or vd.callee not in O.returns_owned:
+            if not fresh16(s.ops[0]):
                 continue
             mine = [(ch, pc_, off) for ch, pc_, root, off in slot_alternatives(s.ops[1]) if root == roots_of[role]]
             if not mine:
